@@ -61,7 +61,7 @@ func lines(text string) []string {
 		raw = raw[:len(raw)-1]
 	}
 	for i := range raw {
-		raw[i] = strings.TrimLeft(strings.TrimSuffix(raw[i], "\r"), " \t")
+		raw[i] = strings.TrimLeft(strings.TrimRight(raw[i], "\r"), " \t")
 	}
 	return raw
 }
